@@ -301,7 +301,7 @@ def run_shard(spec, seed, tier):
     from hypothesis import given, strategies as st
     res = core.ShardResult()
     kf = known.load(PROPERTY)
-    n = 250 if tier == "quick" else 1500
+    n = 250 if tier == "quick" else 3000
     ops: list = []
 
     @st.composite
